@@ -252,7 +252,7 @@ CLAIMED = {
               "temperatures increase with power for fixed conductivities, and a weighted coolant average with weights "
               "summing to one reproduces a uniform field.  Correspondence: the Lean model (native driver) is run on the data "
               "of generated pin models - shells with their own materials' converged conductivities - and compared with the "
-              "temperatures the real PinModel reports; the relations are also evaluated directly on those temperatures."),
+              "temperatures the real PinModel reports; the relations are also evaluated directly on those temperatures.  Cladding: the real PinModel.calc_clad_temps is traced (constant conductivity); Gen/C13Clad clad_drops: the film, OD->ID and OD->mid-wall drops of the traced solution ARE q' / (2 pi r_o h), q' ln(r_o/r_i) / (2 pi k), q' ln(r_o/r_m) / (2 pi k)."),
         note=COMMON_NOTE + ("T3 hand model; the tie is relation-checking on real outputs up to the iteration tolerance "
                             "(2e-2 K), not a bit-level correspondence, because the k-iteration is data dependent.  "
                             "Partial: monotonicity for temperature-dependent conductivities and the radiating-gap fixed "
